@@ -632,7 +632,7 @@ def _node_representer(dumper, node):
                 if data is None:
                     assert tag.startswith('!null')
                     with dumper.force_unquoted():
-                        return dumper.represent_scalar('!null', '', style='')
+                        return dumper.represent_scalar(tag, '', style='')
                 with dumper.force_unquoted():
                     if isinstance(data, ConfigScalar):
                         return dumper.represent_scalar(tag, repr(data._dyn_base(data)))
